@@ -1,5 +1,5 @@
 """C14: lowering profile for the STUN codec (QByteArray / QDataStream / QSet<quint16> / QHostAddress models)"""
-from vlib.cxx2c import Profile, Unsupported
+from vlib.cxx2c import Profile, Unsupported, rangefor_indexed
 
 
 def read_raw(lw, node, args):
@@ -22,8 +22,9 @@ def profile():
         types={'QByteArray': 'QByteArray', 'QDataStream': 'QDataStream', 'QString': 'QString', 'QStringList': 'QStringList',
                'QHostAddress': 'QHostAddress', 'Q_IPV6ADDR': 'Q_IPV6ADDR', 'QIPv6Address': 'Q_IPV6ADDR', 'QSet<quint16>': 'QSetU16',
                'QSet<unsigned short>': 'QSetU16', 'QXmppStunMessage': 'QXmppStunMessage', 'AttributeType': 'int',
+               'QByteRef': 'char', 'QStringBuilder<QByteArray,QByteArray>': 'QByteArray', 'QCryptographicHash': 'QCryptographicHash', 'QCryptographicHash::Algorithm': 'int',
                'QIODevice::OpenModeFlag': 'int', 'QFlags<QIODevice::OpenModeFlag>': 'int', 'QIODevice::OpenMode': 'int', 'QIODevice': 'QDataStream'},
-        class_types={'QByteArray', 'QDataStream', 'QString', 'QStringList', 'QHostAddress', 'Q_IPV6ADDR', 'QSetU16', 'QXmppStunMessage'},
+        class_types={'QByteArray', 'QDataStream', 'QString', 'QStringList', 'QHostAddress', 'Q_IPV6ADDR', 'QSetU16', 'QXmppStunMessage', 'QCryptographicHash'},
         calls={
             'QByteArray::size/0': ('fn', 'QByteArray_size'),
             'QByteArray::isEmpty/0': ('fn', 'QByteArray_isEmpty'),
@@ -59,6 +60,23 @@ def profile():
             'ctor:QHostAddress(unsigned int)': ('fn', 'QHostAddress_ctor_v4'),
             'ctor:QHostAddress(Q_IPV6ADDR)': ('fn', 'QHostAddress_ctor_v6'),
             'ctor:Q_IPV6ADDR()': ('drop',),
+            # owned small arrays (-DQBA_OWNED)
+            'op<<:QDataStream:quint32': ('fn', 'QDataStream_wr_u32_own'),
+            'op+=:QByteArray:QByteArray': ('fn', 'QByteArray_append'),
+            'op+=:QByteArray:char': ('fn', 'QByteArray_append_char'),
+            'op+=:QByteArray:int': ('expr', 'QByteArray_append_char({0}, (char){1})'),
+            'op+:QByteArray:QByteArray': ('fnret', 'QByteArray_concat'),
+            'op[]:QByteArray:int': ('expr', 'QBA_REF_READ({0}, {1})'),
+            'char::operator char/0': ('arg', 0),
+            'QByteArray::operator QByteArray/0': ('arg', 0),
+            'op[]:Q_IPV6ADDR:int': ('expr', '{v0}.c[{1}]'),
+            'ctor:QCryptographicHash(int)': ('fn', 'QCryptographicHash_ctor'),
+            'QCryptographicHash::addData/1': ('fn', 'QCryptographicHash_addData'),
+            'QCryptographicHash::result/0': ('fnret', 'QCryptographicHash_result'),
+            'QCryptographicHash::reset/0': ('fn', 'QCryptographicHash_reset'),
+            'fn:generateHmac': ('calleeret', 'generateHmac'),
+            'fn:hash/2': ('fnret', 'QCryptographicHash_hash'),
+            'rangefor:QByteArray': rangefor_indexed('QByteArray_size({r})', 'QBA_AT({r}, {i})'),
         },
         default_args={'QByteArray': '(&QByteArray_empty)'},
         hooks=[],
